@@ -48,6 +48,11 @@ func (m *LuaManager) RunLuaScript(obj *unstructured.Unstructured, script string)
 			return nil, err
 		}
 	}
+	// OpenBase also registers functions that reach the controller's filesystem or stdin (dofile, loadfile),
+	// the module loader (require, module), and load(), whose reader loop runs in Go and never sees the deadline
+	for _, name := range []string{"dofile", "loadfile", "load", "require", "module"} {
+		l.SetGlobal(name, lua.LNil)
+	}
 	ctx, cancel := context.WithTimeout(context.Background(), 1*time.Second)
 	defer cancel()
 	l.SetContext(ctx)
